@@ -379,16 +379,34 @@ def step (line : String) : String :=
   | "run" :: args => RunIO.run args
   | "c05" :: args => StreamIO.run args
   | "c18" :: ops =>
+    -- ops `c<i>:<p>` (register context i with payload p; `c<i>` = payload 0), `d<i>`, `w<i>`;
+    -- reply per op: ok | exists | refused, for an accepted worker request `ok:<payload served>`
     let parse (t : String) : Option PwVerif.Contexts.Op :=
       match t.toList with
-      | 'c' :: r => (String.ofList r).toNat?.map .create
+      | 'c' :: r =>
+        match (String.ofList r).splitOn ":" with
+        | [i] => i.toNat?.map (PwVerif.Contexts.Op.create · 0)
+        | [i, q] => match i.toNat?, q.toNat? with
+          | some i, some q => some (.create i q)
+          | _, _ => none
+        | _ => none
       | 'd' :: r => (String.ofList r).toNat?.map .delete
       | 'w' :: r => (String.ofList r).toNat?.map .workerIn
       | _ => none
     match ops.mapM parse with
     | none => "bad-op"
-    | some ops => ",".intercalate ((PwVerif.Contexts.run [] ops).2.map fun
-        | .ok => "ok" | .exists => "exists" | .refused => "refused")
+    | some ops =>
+      let rec go (t : PwVerif.Contexts.Table) (ops : List PwVerif.Contexts.Op) (acc : List String) : List String :=
+        match ops with
+        | [] => acc.reverse
+        | op :: rest =>
+          let (t', r) := PwVerif.Contexts.step t op
+          let out := match op, r with
+            | .workerIn i, .ok => (match PwVerif.Contexts.serves t i with
+                | some q => "ok:" ++ toString q | none => "ok:?")
+            | _, .ok => "ok" | _, .exists => "exists" | _, .refused => "refused"
+          go t' rest (out :: acc)
+      ",".intercalate (go [] ops [])
   | "fwd" :: msgs =>
     -- `fwd <i<c>|e<c>|f>...`: PersistentRemoteWorker._fetch_results over a scripted message sequence
     let parse (t : String) : Option PwVerif.Forward.In :=
